@@ -26,7 +26,7 @@ CONSTANTS MaxOps,        \* number of operations in a behaviour
           MaxSeries,     \* how many initial series may be created (always the first operations)
           InPlaceDelay,  \* FALSE: the law.  TRUE: apply_delay as a mutating implementation would do it
                          \*        (negative control: TLC must then refute Purity / NoWriteToExisting)
-          Biases, Gains, Delays, Windows, DWindows, RsdCfgs, GridIds, Methods, QueryTimes, Cuts
+          Biases, Gains, Delays, Windows, DWindows, RsdCfgs, NearCfgs, GridIds, Methods, QueryTimes, Cuts
 
 Q    == 4096
 TDen == 4
@@ -187,6 +187,29 @@ ResampleAndDelay(o, g, cfg) ==
   /\ ev' = [op |-> "rsd", o |-> o, g |-> g, cfg |-> cfg, new |-> Len(objs) + 1, err |-> FALSE]
   /\ obs' = ObsOf(bufs', objs')
 
+\* ---- delays that are almost, but not exactly, equal ------------------------------------------------------
+\* A near delay is <<base, p>>: the lattice delay `base` plus perturbation number p (0 = none).  The harness renders p
+\* as a tiny float offset (one ulp, 1e-12, 1e-10, 4e-10, 1e-9, 1e-6, round-off of (x + 0.1) - 0.1).  Two delays are
+\* THE SAME delay iff both components agree: only then may columns share one interpolation call.  The values leave
+\* the lattice, so this is a query (nothing is kept); what the implementation must return is fixed by the law
+\*    column c of the result = TimeSeries.resample of column c alone at grid + shift(cols[c])      (column by column)
+\* and, for the columns whose delay is unperturbed, by the exact lattice values `base`.
+NoNear == <<NONE, 0>>
+NearCol(cfg, c) == LET raw == IF cfg[SensorOf(c)] = NoNear THEN cfg.dd ELSE cfg[SensorOf(c)]
+                   IN [base |-> IF cfg.pred THEN 0 - raw[1] ELSE raw[1], p |-> raw[2], neg |-> cfg.pred]
+ResampleAndDelayNear(o, g, cfg) ==
+  /\ Step /\ HasObj(o) /\ Interpolable(o)
+  /\ LET T == TimesOf(bufs, objs[o])
+         R == RowsOf(bufs, objs[o])
+         cols == [c \in 1..D |-> NearCol(cfg, c)]
+         sh == [c \in 1..D |-> cols[c].base]
+     IN /\ ev' = [op |-> "rsdn", o |-> o, g |-> g, cfg |-> cfg, grid |-> Grids[g], cols |-> cols,
+                  groups |-> {{c2 \in 1..D : cols[c2] = cols[c]} : c \in 1..D},
+                  base |-> Block("linear", T, R, Grids[g], sh), new |-> 0, err |-> FALSE]
+        /\ exact' = (exact /\ BlockExact("linear", T, R, Grids[g], sh))
+  /\ UNCHANGED <<bufs, objs>>
+  /\ obs' = ObsOf(bufs', objs')
+
 \* TimeSeries.resample(new_times, method): g = 0 passes the series' own time stamps (shared), g > 0 a grid
 Resample(o, g, m) ==
   /\ Step /\ Room /\ HasObj(o) /\ Interpolable(o)
@@ -237,6 +260,7 @@ Next == \/ \E k \in 1..Len(SeriesT) : Create(k)
         \/ \E o \in ObjIds, w \in Windows : TimeWindow(o, w)
         \/ \E o \in ObjIds, od \in ObjIds, w \in DWindows : DelayedWindow(o, od, w)
         \/ \E o \in ObjIds, g \in GridIds \ {0}, cfg \in RsdCfgs : ResampleAndDelay(o, g, cfg)
+        \/ \E o \in ObjIds, g \in GridIds \ {0}, cfg \in NearCfgs : ResampleAndDelayNear(o, g, cfg)
         \/ \E o \in ObjIds, g \in GridIds, m \in Methods : Resample(o, g, m)
         \/ \E o \in ObjIds, t \in QueryTimes, m \in Methods : Get(o, t, m)
         \/ \E o \in ObjIds, cut \in Cuts : RemoveFromBeginning(o, cut)
@@ -256,7 +280,7 @@ PowerOfTwoSteps == \A k \in 1..Len(obs) : \A i \in 1..Len(obs[k].t) - 1 : IsPow2
 NoWriteToExisting == [][\A b \in 1..Len(bufs) : Refs(objs, b) => bufs'[b] = bufs[b]]_vars
 Purity            == [][\A k \in 1..Len(objs) : obs'[k] = obs[k]]_vars
 \* ... and return NEW series (or an error and nothing)
-ReturnsNew == [][IF ev'.op = "get" \/ ev'.err THEN objs' = objs /\ bufs' = bufs
+ReturnsNew == [][IF ev'.op \in {"get", "rsdn"} \/ ev'.err THEN objs' = objs /\ bufs' = bufs
                  ELSE Len(objs') = Len(objs) + 1 /\ ev'.new = Len(objs')]_vars
 \* bias / gain / delay touch only the named sensor's columns and keep the time stamps
 OnlyNamedColumns ==
@@ -289,6 +313,16 @@ GroupedIsColumnwise ==
        /\ obs'[ev'.new].t = Grids[ev'.g]
        /\ \A i \in 1..Len(Grids[ev'.g]), c \in 1..D :
             obs'[ev'.new].d[i][c] = LinVal(obs[ev'.o].t, obs[ev'.o].d, Grids[ev'.g][i] + ColDelay(ev'.cfg, c), c)]_vars
+\* near-equal delays: columns are grouped exactly by identity of their delay, the groups partition the columns, and
+\* an unperturbed column has the lattice value of plain column-wise resampling
+NearDelaysStayApart ==
+  [][(ev'.op = "rsdn") =>
+       /\ \A c1 \in 1..D, c2 \in 1..D :
+            (\E grp \in ev'.groups : c1 \in grp /\ c2 \in grp) <=> (ev'.cols[c1] = ev'.cols[c2])
+       /\ UNION ev'.groups = 1..D
+       /\ \A c \in 1..D : ev'.cols[c].p = 0 =>
+             \A i \in 1..Len(ev'.grid) :
+                ev'.base[i][c] = LinVal(obs[ev'.o].t, obs[ev'.o].d, ev'.grid[i] + ev'.cols[c].base, c)]_vars
 \* a window is exactly the samples inside [mn, mx], in order
 WindowExact ==
   [][(ev'.op = "window" /\ ~ev'.err) =>
@@ -314,6 +348,13 @@ MC_RsdCfgs  == {[dd |-> 0, a |-> NONE, b |-> NONE, pred |-> TRUE],
                 [dd |-> 0, a |-> 1,    b |-> 1,    pred |-> TRUE],
                 [dd |-> 2, a |-> -1,   b |-> NONE, pred |-> FALSE],
                 [dd |-> -1, a |-> 3,   b |-> 0,    pred |-> TRUE]}
+MC_NearCfgs == {[dd |-> <<1, 0>>,  a |-> <<1, 3>>, b |-> NoNear,    pred |-> TRUE],
+                [dd |-> <<1, 3>>,  a |-> <<1, 0>>, b |-> NoNear,    pred |-> TRUE],
+                [dd |-> <<0, 0>>,  a |-> <<0, 2>>, b |-> <<0, 1>>,  pred |-> FALSE],
+                [dd |-> <<2, 0>>,  a |-> <<2, 1>>, b |-> <<2, 7>>,  pred |-> FALSE],
+                [dd |-> <<-3, 4>>, a |-> NoNear,   b |-> <<-3, 0>>, pred |-> TRUE],
+                [dd |-> <<1, 5>>,  a |-> <<1, 0>>, b |-> <<1, 6>>,  pred |-> FALSE],
+                [dd |-> <<2, 3>>,  a |-> <<2, 3>>, b |-> <<2, 4>>,  pred |-> TRUE]}
 MC_GridIds  == 0..3
 MC_Methods  == {"linear", "zoh"}
 MC_Query    == {-2, 2, 3, 7, 13}
@@ -325,6 +366,9 @@ SM_Delays   == {1, -3}
 SM_Windows  == {<<2, 8>>, <<9, 11>>}
 SM_DWindows == {<<-1, 1>>, <<1, -1>>}
 SM_RsdCfgs  == {[dd |-> 1, a |-> NONE, b |-> 2, pred |-> TRUE], [dd |-> 2, a |-> -1, b |-> NONE, pred |-> FALSE]}
+SM_NearCfgs == {[dd |-> <<1, 0>>, a |-> <<1, 3>>, b |-> NoNear,   pred |-> TRUE],
+                [dd |-> <<1, 3>>, a |-> <<1, 0>>, b |-> NoNear,   pred |-> TRUE],
+                [dd |-> <<2, 0>>, a |-> <<2, 1>>, b |-> <<2, 7>>, pred |-> FALSE]}
 SM_GridIds  == {0, 2}
 SM_Query    == {3, 13}
 SM_Cuts     == {3, 50}
